@@ -1,7 +1,7 @@
 (* C20 - the "real" part of the level sequences: level d has rr d genuine items
    (rr 1 = n, rr (d+1) = n + rr d / 2); within them the rows satisfy the counting identity that gives
    Kraft equality, are non-increasing, and their cost is the total weight taken.  Bounds on all weights. *)
-From Coq Require Import List NArith ZArith Arith Bool Lia ZifyBool.
+From Coq Require Import List NArith ZArith Arith Bool Lia ZifyBool ZifyNat.
 From LBZ Require Import Gen.Consts Enc.PmModel Enc.PmIdeal.
 Import ListNotations.
 Local Open Scope N_scope.
@@ -51,6 +51,64 @@ Qed.
 Lemma nth_repeat_0 j k : nth j (repeat 0 k) 0 = 0.
 Proof. revert j; induction k as [|k IH]; intros [|j]; cbn [repeat nth]; auto. Qed.
 
+(* sum of the k lightest leaf frequencies; cost of a row = sum over its levels *)
+Fixpoint lsum (l : list N) : N := match l with [] => 0 | x :: r => x + lsum r end.
+Definition Ssum (xs : list N) (k : nat) : N := lsum (firstn k xs).
+Fixpoint Crow (xs : list N) (d : nat) (row : list N) : N :=
+  match d with
+  | O => 0
+  | S d1 => Ssum xs (N.to_nat (hd 0 row)) + Crow xs d1 (tl row)
+  end.
+
+Lemma Ssum_S xs k : (k < length xs)%nat -> Ssum xs (S k) = Ssum xs k + leafF xs k.
+Proof.
+  unfold Ssum, leafF. revert k; induction xs as [|x r IH]; intros k Hk; cbn [length] in Hk; [lia|].
+  destruct k as [|k].
+  - cbn [firstn lsum nth]. destruct r; cbn [firstn lsum]; lia.
+  - change (firstn (S (S k)) (x :: r)) with (x :: firstn (S k) r).
+    change (firstn (S k) (x :: r)) with (x :: firstn k r). cbn [lsum nth]. rewrite IH by lia. lia.
+Qed.
+
+Lemma Ssum_0 xs : Ssum xs 0 = 0. Proof. reflexivity. Qed.
+
+Lemma Ssum_le_total xs k : Ssum xs k <= lsum xs.
+Proof.
+  unfold Ssum. revert k; induction xs as [|x r IH]; intro k.
+  - destruct k; cbn; lia.
+  - destruct k as [|k]; cbn [firstn lsum]; [lia|].
+    specialize (IH k). lia.
+Qed.
+
+Lemma In_le_lsum x (l : list N) : In x l -> x <= lsum l.
+Proof.
+  induction l as [|y r IH]; intro H; [destruct H|]. cbn [lsum].
+  destruct H as [->|H]; [lia|]. specialize (IH H). lia.
+Qed.
+
+Lemma Crow_S xs d1 row : Crow xs (S d1) row = Ssum xs (N.to_nat (hd 0 row)) + Crow xs d1 (tl row).
+Proof. reflexivity. Qed.
+
+Lemma Crow_firstn xs d : forall k row, (d <= k)%nat -> Crow xs d (firstn k row) = Crow xs d row.
+Proof.
+  induction d as [|d1 IH]; intros k row Hk; [reflexivity|].
+  destruct k as [|k]; [lia|]. destruct row as [|x r]; [reflexivity|].
+  cbn [firstn]. rewrite !Crow_S. cbn [hd tl]. rewrite IH by lia. reflexivity.
+Qed.
+
+Lemma Crow_zeros xs d : forall k, Crow xs d (repeat 0 k) = 0.
+Proof.
+  induction d as [|d1 IH]; intro k; [reflexivity|].
+  rewrite Crow_S. destruct k as [|k]; cbn [repeat hd tl].
+  - change (@nil N) with (repeat 0 0). rewrite IH. reflexivity.
+  - rewrite IH. reflexivity.
+Qed.
+
+Lemma Crow_bound xs d : forall row, Crow xs d row <= N.of_nat d * lsum xs.
+Proof.
+  induction d as [|d1 IH]; intro row; [cbn; lia|].
+  rewrite Crow_S. pose proof (Ssum_le_total xs (N.to_nat (hd 0 row))). specialize (IH (tl row)). lia.
+Qed.
+
 Section Real.
 Variable xs : list N.
 Notation n := (length xs).
@@ -64,7 +122,7 @@ Notation R := (rr n).
 Let IA := inv_all xs Hn Hs.
 
 Lemma Pk_step d1 t : (2 <= t)%nat -> (Pk (S d1) (S t) <= S (Pk (S d1) t))%nat.
-Proof. intro Ht. pose proof (El_step xs d1 t Ht). rewrite !Pk_unfold. lia. Qed.
+Proof. intro Ht. pose proof (El_step xs Hn d1 t Ht). rewrite !Pk_unfold. lia. Qed.
 
 (* within the genuine items a level only takes genuine packages *)
 Lemma R1_step d0 :
@@ -96,13 +154,13 @@ Qed.
 Lemma all_leaves_after_R d1 : forall t, (2 <= t)%nat -> (R (S d1) <= t)%nat -> El (S d1) t = n.
 Proof.
   induction d1 as [|d0 IH]; intros t Ht Hle.
-  - rewrite rr_1 in Hle. rewrite El_level1 by assumption. lia.
+  - rewrite rr_1 in Hle. rewrite (El_level1 xs Hn) by assumption. lia.
   - pose proof (rr_bounds n (S d0) ltac:(lia)) as [[B1 B2] _].
     assert (T : (2 <= R (S (S d0)))%nat) by lia.
     pose proof (R1_step d0 IH _ T (Nat.le_refl _)) as P. rewrite Pk_unfold in P.
     pose proof (inv_hi _ _ _ (IA (S d0) _ T)) as Hhi.
     pose proof (inv_hi _ _ _ (IA (S d0) _ Ht)) as Hhi'.
-    pose proof (El_mono xs (S d0) _ _ T Hle). rewrite rr_SS in *. lia.
+    pose proof (El_mono xs Hn (S d0) _ _ T Hle). rewrite rr_SS in *. lia.
 Qed.
 
 Lemma R1 d0 t : (2 <= t)%nat -> (t <= R (S (S d0)))%nat -> (2 * Pk (S (S d0)) t <= R (S d0))%nat.
@@ -111,7 +169,7 @@ Proof.
 Qed.
 
 Lemma level1_real t : (2 <= t)%nat -> (t <= R 1)%nat -> El 1 t = t.
-Proof. intros Ht Hle. rewrite rr_1 in Hle. rewrite El_level1 by assumption. lia. Qed.
+Proof. intros Ht Hle. rewrite rr_1 in Hle. rewrite (El_level1 xs Hn) by assumption. lia. Qed.
 
 (* ---- the rows ---------------------------------------------------------------------------------------- *)
 Lemma ia_split d t : (2 <= t)%nat -> (1 <= d)%nat -> ia (L d t) = N.of_nat (El d t) :: tl (ia (L d t)).
@@ -163,6 +221,9 @@ Fixpoint val (d : nat) (row : list N) : N :=
   | S d1 => hd 0 row * 2 ^ N.of_nat d1 + val d1 (tl row)
   end.
 
+Lemma val_S d1 row : val (S d1) row = hd 0 row * 2 ^ N.of_nat d1 + val d1 (tl row).
+Proof. reflexivity. Qed.
+
 Lemma val_firstn d : forall k row, (d <= k)%nat -> val d (firstn k row) = val d row.
 Proof.
   induction d as [|d1 IH]; intros k row Hk; [reflexivity|].
@@ -183,7 +244,7 @@ Lemma val_identity d1 : (S d1 <= S MCL)%nat -> forall t, (2 <= t)%nat -> (t <= R
 Proof.
   induction d1 as [|d0 IH]; intros Hd t Ht Hle.
   - rewrite ia_split by lia. cbn [val hd tl]. rewrite level1_real by assumption. lia.
-  - rewrite ia_split by lia. cbn [val hd tl].
+  - rewrite ia_split by lia. rewrite val_S. cbn [hd tl].
     pose proof (IA (S d0) t Ht) as I. rewrite (inv_h _ _ _ I). cbn [Nat.leb orb].
     pose proof (inv_t _ _ _ I) as It.
     destruct (Nat.eqb_spec (Pk (S (S d0)) t) 0) as [Hp|Hp].
@@ -193,5 +254,136 @@ Proof.
       rewrite IH; [|lia|lia|apply R1; assumption].
       rewrite Pk_unfold in *. rewrite Nnat.Nat2N.inj_succ, N.pow_succ_r'.
       set (P := 2 ^ N.of_nat d0). nia.
+Qed.
+
+(* ---- total weight taken = cost of the row ------------------------------------------------------------- *)
+Definition W (d t : nat) : N := Crow xs d (ia (L d t)).
+
+Lemma W_init d1 : W (S d1) 2 = leafF xs 0 + leafF xs 1.
+Proof.
+  unfold W. rewrite ilev_2. unfold il_init; cbn [ia]. rewrite Crow_S. cbn [hd tl].
+  rewrite Crow_zeros. change (N.to_nat 2) with 2%nat.
+  rewrite !Ssum_S by lia. rewrite Ssum_0. lia.
+Qed.
+
+Lemma W_step d1 : (S d1 <= S MCL)%nat -> forall t, (2 <= t)%nat -> (S t <= R (S d1))%nat ->
+  ipkg (L (S d1) (S t)) = iprev (L (S d1) t) + iprev (L (S d1) (S t)) /\
+  W (S d1) (S t) = W (S d1) t + iprev (L (S d1) (S t)).
+Proof.
+  induction d1 as [|d0 IH]; intros Hd t Ht Hle.
+  - pose proof (istep_cases xs (L 0) 0 t (L 1 t)) as C. cbn zeta in C.
+    rewrite <- (ilev_S xs 0 t Ht) in C. rewrite <- El_unfold in C.
+    pose proof (level1_real t Ht ltac:(lia)) as E1. rewrite rr_1 in Hle.
+    destruct C as [[E [_ Hge]] | [[E [Hlt _]] | [E [D0 _]]]]; [lia| |congruence].
+    unfold W. rewrite E. unfold il_leaf; cbn [ia ipkg iprev]. rewrite <- El_unfold.
+    split; [reflexivity|].
+    rewrite (ia_split 1 t) by lia. rewrite !Crow_S. cbn [hd tl Crow].
+    replace (N.to_nat (N.of_nat (El 1 t) + 1)) with (S (El 1 t)) by lia.
+    rewrite Nnat.Nat2N.id. rewrite Ssum_S by lia. lia.
+  - pose proof (istep_cases xs (L (S d0)) (S d0) t (L (S (S d0)) t)) as C. cbn zeta in C.
+    rewrite <- (ilev_S xs (S d0) t Ht) in C. rewrite <- El_unfold in C.
+    pose proof (IA (S d0) t Ht) as I.
+    destruct C as [[E [D0 _]] | [[E [Hlt _]] | [E [_ Hcmp]]]]; [congruence| |].
+    + unfold W. rewrite E. unfold il_leaf; cbn [ia ipkg iprev]. rewrite <- El_unfold.
+      split; [reflexivity|].
+      rewrite (ia_split (S (S d0)) t) by lia. rewrite !Crow_S. cbn [hd tl].
+      replace (N.to_nat (N.of_nat (El (S (S d0)) t) + 1)) with (S (El (S (S d0)) t)) by lia.
+      rewrite Nnat.Nat2N.id. rewrite Ssum_S by lia. lia.
+    + set (p := (t - El (S (S d0)) t)%nat) in *.
+      set (lo := L (S d0) (2 * p + 2)) in *.
+      unfold W. rewrite E. unfold il_pkg; cbn [ia ipkg iprev]. split; [reflexivity|].
+      rewrite (ia_split (S (S d0)) t) by lia. rewrite !(Crow_S xs (S d0)). cbn [hd tl].
+      rewrite Crow_firstn by lia.
+      rewrite (inv_h _ _ _ I). cbn [Nat.leb orb]. rewrite Pk_unfold. fold p.
+      replace (S (S d0) - 1)%nat with (S d0) by lia.
+      (* the package was genuine *)
+      assert (Hp1 : (2 * p + 2 <= R (S d0))%nat).
+      { pose proof (R1 d0 (S t) ltac:(lia) Hle) as HR. rewrite Pk_unfold in HR.
+        assert (El (S (S d0)) (S t) = El (S (S d0)) t).
+        { rewrite (El_unfold _ _ (S t)), E. unfold il_pkg; cbn [ia hd]. rewrite <- El_unfold. reflexivity. }
+        pose proof (inv_t _ _ _ I). unfold p. lia. }
+      destruct (Nat.eqb_spec p 0) as [Hp|Hp].
+      * rewrite Crow_zeros. unfold lo. rewrite Hp. cbn [Nat.mul Nat.add].
+        fold (W (S d0) 2). rewrite W_init. rewrite ilev_2. unfold il_init; cbn [ipkg]. lia.
+      * rewrite Crow_firstn by lia. unfold lo.
+        fold (W (S d0) (2 * p)). fold (W (S d0) (2 * p + 2)).
+        replace (2 * p + 2)%nat with (S (S (2 * p))) in * by lia.
+        destruct (IH ltac:(lia) (2 * p)%nat ltac:(lia) ltac:(lia)) as [A1 A2].
+        destruct (IH ltac:(lia) (S (2 * p))%nat ltac:(lia) ltac:(lia)) as [B1 B2].
+        rewrite B2, A2, B1. lia.
+Qed.
+
+Lemma pkg_le_W d1 : (S d1 <= S MCL)%nat -> forall t, (2 <= t)%nat -> (t <= R (S d1))%nat ->
+  ipkg (L (S d1) t) <= W (S d1) t.
+Proof.
+  intros Hd t Ht. induction t as [|t IHt]; [lia|]. intro Hle.
+  destruct (Nat.eq_dec t 1) as [->|Hne].
+  - rewrite W_init, ilev_2. unfold il_init; cbn [ipkg]. lia.
+  - assert (Ht' : (2 <= t)%nat) by lia. specialize (IHt Ht' ltac:(lia)).
+    destruct (W_step d1 Hd t Ht' Hle) as [A1 A2]. rewrite A1, A2.
+    pose proof (inv_e1 _ _ _ (IA d1 t Ht')). lia.
+Qed.
+
+(* ---- bounds on every weight ---------------------------------------------------------------------------- *)
+Lemma leaf_le_w1 e : (e < n)%nat -> leafF xs e <= leafF xs (n - 1).
+Proof. intro H. apply Hs; lia. Qed.
+
+Lemma tier1 d1 : forall t, (2 <= t)%nat ->
+  iprev (L (S d1) t) <= 2 ^ N.of_nat d1 * leafF xs (n - 1) /\
+  ipkg (L (S d1) t) <= 2 ^ N.of_nat (S d1) * leafF xs (n - 1).
+Proof.
+  induction d1 as [|d0 IH]; intros t Ht.
+  - induction t as [|t IHt]; [lia|].
+    destruct (Nat.eq_dec t 1) as [->|Hne].
+    + rewrite ilev_2. unfold il_init; cbn [ipkg iprev].
+      pose proof (leaf_le_w1 0 ltac:(lia)). pose proof (leaf_le_w1 1 ltac:(lia)). set (w1 := leafF xs (n - 1)) in *.
+      change (2 ^ N.of_nat 0) with 1. change (2 ^ N.of_nat 1) with 2. lia.
+    + assert (Ht' : (2 <= t)%nat) by lia. destruct (IHt Ht') as [A B].
+      pose proof (istep_cases xs (L 0) 0 t (L 1 t)) as C. cbn zeta in C.
+      rewrite <- (ilev_S xs 0 t Ht') in C. rewrite <- El_unfold in C.
+      destruct C as [[E _] | [[E [Hlt _]] | [E [D0 _]]]]; [| |congruence]; rewrite E.
+      * auto.
+      * unfold il_leaf; cbn [ipkg iprev]. rewrite <- El_unfold.
+        pose proof (leaf_le_w1 _ Hlt). set (w1 := leafF xs (n - 1)) in *.
+        change (2 ^ N.of_nat 0) with 1 in *. change (2 ^ N.of_nat 1) with 2 in *. lia.
+  - induction t as [|t IHt]; [lia|].
+    assert (P2 : 2 ^ N.of_nat (S (S d0)) = 2 * 2 ^ N.of_nat (S d0)) by (rewrite (Nnat.Nat2N.inj_succ (S d0)), N.pow_succ_r'; reflexivity).
+    assert (P1 : 2 ^ N.of_nat (S d0) = 2 * 2 ^ N.of_nat d0) by (rewrite (Nnat.Nat2N.inj_succ d0), N.pow_succ_r'; reflexivity).
+    assert (P0 : 1 <= 2 ^ N.of_nat d0) by (apply N.lt_succ_r; rewrite <- N.add_1_l; pose proof (N.pow_nonzero 2 (N.of_nat d0)); lia).
+    destruct (Nat.eq_dec t 1) as [->|Hne].
+    + rewrite ilev_2. unfold il_init; cbn [ipkg iprev].
+      pose proof (leaf_le_w1 0 ltac:(lia)). pose proof (leaf_le_w1 1 ltac:(lia)). set (w1 := leafF xs (n - 1)) in *.
+      rewrite P2, P1. set (P := 2 ^ N.of_nat d0) in *. nia.
+    + assert (Ht' : (2 <= t)%nat) by lia. destruct (IHt Ht') as [A B].
+      pose proof (istep_cases xs (L (S d0)) (S d0) t (L (S (S d0)) t)) as C. cbn zeta in C.
+      rewrite <- (ilev_S xs (S d0) t Ht') in C. rewrite <- El_unfold in C.
+      destruct C as [[E [D0 _]] | [[E [Hlt _]] | [E _]]]; [congruence| |]; rewrite E.
+      * unfold il_leaf; cbn [ipkg iprev]. rewrite <- El_unfold.
+        pose proof (leaf_le_w1 _ Hlt). set (w1 := leafF xs (n - 1)) in *. rewrite P2, P1 in *.
+        set (P := 2 ^ N.of_nat d0) in *. nia.
+      * unfold il_pkg; cbn [ipkg iprev].
+        set (t2 := (2 * (t - El (S (S d0)) t) + 2)%nat).
+        destruct (IH t2 ltac:(unfold t2; lia)) as [_ B']. set (w1 := leafF xs (n - 1)) in *. rewrite P2 in *. lia.
+Qed.
+
+Lemma w1_le_total : leafF xs (n - 1) <= lsum xs.
+Proof. apply In_le_lsum. unfold leafF. apply nth_In. lia. Qed.
+
+(* every package weight that the first 2n-2 takes of a level <= MCL can produce *)
+Lemma pkg_bound d1 t : (S d1 <= MCL)%nat -> (2 <= t)%nat -> (t <= 2 * n - 2)%nat ->
+  ipkg (L (S d1) t) <= N.of_nat (Nat.max n MCL) * lsum xs.
+Proof.
+  intros Hd Ht Hle.
+  destruct (Nat.le_gt_cases n (2 ^ S d1)) as [Hfull|Hsmall].
+  - pose proof (rr_full n d1 ltac:(lia) Hfull) as HR.
+    pose proof (pkg_le_W d1 ltac:(lia) t Ht ltac:(lia)) as H1.
+    unfold W in H1. pose proof (Crow_bound xs (S d1) (ia (L (S d1) t))) as H2.
+    assert (N.of_nat (S d1) <= N.of_nat (Nat.max n MCL)) by lia.
+    nia.
+  - destruct (tier1 d1 t Ht) as [_ B]. pose proof w1_le_total as Hw.
+    assert (E : 2 ^ N.of_nat (S d1) = N.of_nat (2 ^ S d1)) by (rewrite Nnat.Nat2N.inj_pow; reflexivity).
+    rewrite E in B.
+    assert (N.of_nat (2 ^ S d1) <= N.of_nat (Nat.max n MCL)) by lia.
+    nia.
 Qed.
 End Real.
